@@ -95,7 +95,9 @@ fn programs(entry: Entry) -> Vec<(&'static str, Vec<Op>)> {
         // a client panics (and catches it) while it holds the OwningAddr / a polled join future: the handle is dropped
         // by the unwinding, the actor is unaffected as long as another handle exists
         v.push(("owning_dropped_while_panicking", vec![call(1), Op::DropPanicking { slot: 1 }, Op::Sleep(20), Op::Ping { slot: 0, cancel: None }, call(0), Op::Stop { slot: 0 }, Op::Await { slot: 0, by_ref: false }]));
-        v.push(("join_future_dropped_while_panicking", vec![call(1), Op::JoinPark { slot: 1, polls: 1 }, Op::DropPanicking { slot: 2 }, Op::Sleep(20), Op::Ping { slot: 0, cancel: None }, call(0), Op::Stop { slot: 0 }, Op::Join { slot: 1, cancel: None }]));
+        // (the join handle went with the dropped future, so the final join answers None at once: the program waits for the
+        // termination through the address first, or the record would depend on how far the tear-down got)
+        v.push(("join_future_dropped_while_panicking", vec![call(1), Op::JoinPark { slot: 1, polls: 1 }, Op::DropPanicking { slot: 2 }, Op::Sleep(20), Op::Ping { slot: 0, cancel: None }, call(0), Op::Stop { slot: 0 }, Op::Await { slot: 0, by_ref: true }, Op::Join { slot: 1, cancel: None }]));
         // a pending join future, then detach: returns, actor keeps running
         v.push(("join_parked_then_detach", vec![call(1), Op::JoinPark { slot: 1, polls: 1 }, Op::Detach { slot: 1 }, Op::Ping { slot: 3, cancel: None }, Op::Stop { slot: 3 }, Op::Await { slot: 3, by_ref: false }]));
     } else {
@@ -348,8 +350,27 @@ fn run_cell_inner(cell: &Cell) -> (String, usize) {
         let timed_out = futures::future::select(client, wd).await;
         let w = matches!(timed_out, futures::future::Either::Right(_));
         scenario::cleanup(vec![]).await;
-        // let detached tasks observe the cleanup
-        rt::sleep(5).await;
+        // let detached tasks observe the cleanup: every handle is gone now, so every actor that started terminates and
+        // its value is dropped.  Wait for that (a fixed 5 ms was not enough on a loaded machine: a record then lacked
+        // the `stopped()` call-back on one runtime only), at most 1.5 s - an actor that survives (or a value that was
+        // handed to the client) shows in the record, the same way on every runtime.
+        for round in 0..300 {
+            rt::sleep(5).await;
+            let alive = log::with(|evs| {
+                let mut started: Vec<Uid> = vec![];
+                for e in evs {
+                    match &e.k {
+                        K::CbIn { cb: Cb::Started, obj, .. } if !started.contains(obj) => started.push(*obj),
+                        K::ObjDrop { obj, .. } => started.retain(|o| o != obj),
+                        _ => {}
+                    }
+                }
+                started.len()
+            });
+            if alive == 0 && round >= 1 {
+                break;
+            }
+        }
         w
     });
     let evs = log::take();
@@ -369,7 +390,11 @@ pub fn run(out: &str, repeat: u32) {
     for (i, c) in cells.iter().enumerate() {
         let mut recs = vec![];
         for _ in 0..repeat {
+            let t0 = std::time::Instant::now();
             let (r, e) = run_cell(c);
+            if std::env::var("XRT_SLOW").is_ok() && t0.elapsed().as_millis() > 1000 {
+                eprintln!("slow cell {} {} ms", c.name, t0.elapsed().as_millis());
+            }
             events += e;
             if !recs.contains(&r) {
                 recs.push(r);
